@@ -9,6 +9,10 @@ Tie: random operation histories are executed in lock-step on real `Vector` objec
       (views share exactly the addressed arrays), slices and fancy get/set address the right cells,
       and (reference semantics, `oracle_effect`) the cell contents after field arithmetic, set_flattened,
       add_fields, remove_fields and copy are the expected ones while no other array changes;
+      the public attribute setters (fields / units / shape / data / name), metadata item assignment,
+      _FieldView.__getitem__, index tuples longer than the number of fixed dimensions and the save + load
+      round trip are operations of the histories too (schema / name / metadata of every OTHER vector must
+      not move, a renamed / re-populated vector holds exactly what was given);
   (2) the whole observable state (shape, fields, units, per-cell arrays as exact rationals, `is`-aliasing of
       cells and metadata dicts between all live vectors, the returned value or error class) is compared
       with the Coq model run on the same history (vm_compute).
@@ -19,6 +23,9 @@ import contextlib
 import io
 import itertools
 import json
+import os
+import shutil
+import tempfile
 from fractions import Fraction
 
 import numpy as np
@@ -44,7 +51,9 @@ VECTOR_METHODS = ["Vector.__init__", "Vector.from_shape", "Vector.from_data", "V
                   "Vector.copy", "Vector.flatten", "nested_list", "_FieldView.__init__", "_FieldView._apply_op",
                   "_FieldView.__iadd__", "_FieldView.__isub__", "_FieldView.__imul__", "_FieldView.__itruediv__",
                   "_FieldView.__ifloordiv__", "_FieldView.__imod__", "_FieldView.__ipow__", "_FieldView.flatten",
-                  "_FieldView.set_flattened", "_FieldView.__array__"]
+                  "_FieldView.set_flattened", "_FieldView.__array__", "_FieldView.__getitem__"]
+# whole classes (the property setters share their name with the getter, which the per-method index keeps)
+VECTOR_CLASSES = ["Vector", "_FieldView"]
 VALIDATORS = ["validate_shape", "validate_fields", "validate_num_fields", "validate_vector_units",
               "validate_vector_data_for_inference", "validate_vector_data"]
 
@@ -154,6 +163,23 @@ class Impl:
             return self.vecs[v["vi"]]
         return 7
 
+    def dval(self, skel, items):
+        """the nested-list argument of `v.data = ...`: skeleton of Python lists, int leaf = items[i], None = None"""
+        if isinstance(skel, list):
+            return [self.dval(x, items) for x in skel]
+        if skel is None:
+            return None
+        return self.aval(items[skel], True)
+
+    @staticmethod
+    def names_arg(a, to_name):
+        if a["k"] == "none":
+            return None
+        if a["k"] == "bad":
+            return a.get("py", 5)
+        l = [to_name(z) for z in a["l"]]
+        return tuple(l) if a.get("tuple") else l
+
     @staticmethod
     def index(x):
         if "i" in x:
@@ -205,7 +231,57 @@ class Impl:
                         self.vecs.append(r)
                         info["created"] = "view"
                         return [3], info
+                    if isinstance(r, np.ndarray) and r.ndim == 1 and len(ii) > len(v._shape):
+                        return [5, len(r)] + [z for x in r.tolist() for z in qpair(x)], info    # a row of the cell
                     return [1, ("L", r)], info
+                if kind == "field_get":
+                    ii = [self.index(x) for x in op["idx"]]
+                    fv = v[fname(op["name"])]
+                    r = fv[ii[0] if (len(ii) == 1 and op.get("bare")) else tuple(ii)]
+                    info["ret"] = r
+                    if r is None:
+                        return [0], info
+                    if isinstance(r, np.ndarray):
+                        return [5, len(r)] + [z for x in r.tolist() for z in qpair(x)], info
+                    self.vecs.append(r.vector)          # the view keeps the sliced Vector alive
+                    info["created"] = "view"
+                    return [3], info
+                if kind == "set_fields":
+                    arg = self.names_arg(op["arg"], fname)
+                    info["arg"] = arg
+                    v.fields = arg
+                    return [0], info
+                if kind == "set_units":
+                    arg = self.names_arg(op["arg"], uname)
+                    info["arg"] = arg
+                    v.units = arg
+                    return [0], info
+                if kind == "set_shape":
+                    v.shape = [2] if op["shape"] is None else tuple(op["shape"])
+                    return [0], info
+                if kind == "set_data_attr":
+                    arg = self.dval(op["skel"], op["items"])
+                    info["arg"] = arg
+                    v.data = arg
+                    return [0], info
+                if kind == "set_name":
+                    v.name = op["name"]
+                    return [0], info
+                if kind == "meta_put":
+                    v.metadata[op["key"]] = op["val"]
+                    return [0], info
+                if kind == "reload":
+                    from quantem.core.io.serialize import load
+                    tmp = tempfile.mkdtemp(prefix="c11_")
+                    try:
+                        path = os.path.join(tmp, "v.zip" if op["store"] == "zip" else "v")
+                        v.save(path, store=op["store"])
+                        w = load(path)
+                    finally:
+                        shutil.rmtree(tmp, ignore_errors=True)
+                    self.vecs.append(w)
+                    info["created"] = "fresh"
+                    return [3], info
                 if kind == "setitem":
                     val = self.sval(op["value"])
                     info["val"] = val
@@ -231,7 +307,8 @@ class Impl:
                         v[name] **= c
                     return [0], info
                 if kind == "field_flatten":
-                    r = np.asarray(v[fname(op["name"])].flatten())
+                    r = np.asarray(v[fname(op["name"])]) if op.get("via") == "asarray" else \
+                        np.asarray(v[fname(op["name"])].flatten())
                     return [5, len(r)] + [z for x in r.tolist() for z in qpair(x)], info
                 if kind == "set_flattened":
                     vals = np.zeros((2, 2)) if op["vals"] is None else np.array([float(fr(x)) for x in op["vals"]],
@@ -441,7 +518,9 @@ def oracle_step(impl, op, res, info, pre_vecs, pre_leaves):
         return src_leaves[off][0]
 
     # ---- slicing returns the addressed cells, for every number of fixed dimensions
-    if kind == "getitem" and len(op["idx"]) <= d and not (len(op["idx"]) == d and all("i" in x for x in op["idx"])):
+    via_field = kind == "field_get" and fname(op["name"]) in list(v._fields)
+    if (kind == "getitem" or via_field) and len(op["idx"]) <= d and \
+            not (len(op["idx"]) == d and all("i" in x for x in op["idx"])):
         lists = py_index_lists(shape, op["idx"], pad=True)
         valid = lists is not None and all(len(l) > 0 and all(-n <= i < n for i in l) for l, n in zip(lists, shape))
         if valid:
@@ -450,6 +529,20 @@ def oracle_step(impl, op, res, info, pre_vecs, pre_leaves):
                         "v[%s] on a vector with %d fixed dimension(s) %s raised %s: %s" % (
                             show_idx(op["idx"]), d, shape, type(info["exc"]).__name__, info["exc"]))
             w = info["ret"]
+            if via_field:
+                # v[name][idx]: the field view of the slice; its values are that column of the addressed cells
+                fv, w = w, getattr(w, "vector", None)
+                k = list(v._fields).index(fname(op["name"]))
+                cols = [c[:, k] for c in (src_cell(p) for p in itertools.product(*lists)) if isinstance(c, np.ndarray)]
+                want = np.concatenate(cols) if cols else np.empty((0,))
+                try:
+                    got = np.asarray(fv)
+                except Exception as e:  # noqa
+                    got = e
+                if not isinstance(got, np.ndarray) or got.shape != want.shape or not np.array_equal(got, want):
+                    return ("field-view-slice-wrong-values",
+                            "v[%r][%s] on shape %s is not that column of the addressed cells" % (
+                                fname(op["name"]), show_idx(op["idx"]), shape))
             ok = isinstance(w, V) and tuple(w._shape) == tuple(len(l) for l in lists) and nesting_ok(w._data, tuple(w._shape))
             if ok:
                 for o in np.ndindex(*w._shape):
@@ -459,6 +552,15 @@ def oracle_step(impl, op, res, info, pre_vecs, pre_leaves):
             if not ok:
                 return ("slicing-%dd-wrong-cells" % d,
                         "v[%s] on shape %s does not hold exactly the addressed cells" % (show_idx(op["idx"]), shape))
+    if via_field and len(op["idx"]) == d and all("i" in x for x in op["idx"]) and "exc" not in info and \
+            all(-n <= x["i"] < n for x, n in zip(op["idx"], shape)):
+        c = src_cell([x["i"] for x in op["idx"]])
+        k = list(v._fields).index(fname(op["name"]))
+        got = info["ret"]
+        if (c is None) != (got is None) or (c is not None and not (
+                isinstance(got, np.ndarray) and got.shape == (c.shape[0],) and np.array_equal(got, c[:, k]))):
+            return ("field-view-cell-wrong-values", "v[%r][%s] is not that column of the addressed cell" % (
+                fname(op["name"]), show_idx(op["idx"])))
     if kind == "get_data" and len(op["idx"]) == d:
         lists = py_index_lists(shape, op["idx"], pad=False)
         valid = lists is not None and all(all(0 <= i < n for i in l) for l, n in zip(lists, shape))
@@ -499,6 +601,64 @@ ARITH = {"add": lambda x, c: x + c, "sub": lambda x, c: x - c, "mul": lambda x, 
 
 def same_arr(a, b):
     return isinstance(a, np.ndarray) and a.shape == b.shape and np.array_equal(a, b)
+
+
+def snapshot_schema(vecs):
+    return [(tuple(v._shape), list(v._fields), list(v._units), v._name, dict(v._metadata)) for v in vecs]
+
+
+READ_ONLY_SCHEMA = ("field_op", "set_flattened", "flatten", "field_flatten", "get_data", "getitem", "set_data", "setitem",
+                    "copy", "field_get", "reload", "set_shape")
+
+
+def oracle_schema(impl, op, info, pre_vecs, pre_schema):
+    """shape / fields / units / name / metadata contents: an operation on one vector never moves those of
+    another vector (no shared mutable state), and only the operations meant to change them do so on its own"""
+    kind = op["op"]
+    tgt = op.get("vi", -1)
+    for n, (v, old) in enumerate(zip(pre_vecs, pre_schema)):
+        now = (tuple(v._shape), list(v._fields), list(v._units), v._name, dict(v._metadata))
+        if now == old:
+            continue
+        what = [lab for lab, a, b in zip(("shape", "fields", "units", "name", "metadata"), now, old) if a != b]
+        if n != tgt:
+            return ("metadata-shared-contents" if what == ["metadata"] else "unrelated-vector-schema-changed",
+                    "%s on vector #%d changed the %s of vector #%d" % (kind, tgt, "/".join(what), n))
+        allowed = {"add_fields": {"fields", "units"}, "remove_fields": {"fields", "units"}, "set_fields": {"fields"},
+                   "set_units": {"units"}, "set_name": {"name"}, "meta_put": {"metadata"}}.get(kind, set())
+        if kind in READ_ONLY_SCHEMA or set(what) - allowed:
+            if kind == "set_shape":
+                continue        # reported by the structure clause with its own key
+            return ("schema-changed-by-%s" % kind.replace("_", "-"),
+                    "%s changed the %s of its vector" % (kind, "/".join(sorted(set(what) - allowed) or what)))
+    if "exc" in info or tgt < 0 or tgt >= len(pre_vecs):
+        return None
+    v = pre_vecs[tgt]
+    if kind == "set_fields":
+        if list(v._fields) != [str(x) for x in info["arg"]]:
+            return ("fields-setter-effect", "v.fields = %r left fields %r" % (info["arg"], v._fields))
+    if kind == "set_units":
+        want = ["none"] * len(v._fields) if info["arg"] is None else [str(x) for x in info["arg"]]
+        if list(v._units) != want:
+            return ("units-setter-effect", "v.units = %r left units %r" % (info["arg"], v._units))
+    if kind == "set_name" and v._name != str(op["name"]):
+        return ("name-setter-effect", "v.name = %r left name %r" % (op["name"], v._name))
+    if kind == "meta_put" and v._metadata.get(op["key"]) != op["val"]:
+        return ("metadata-put-effect", "v.metadata[%r] = %r is not read back" % (op["key"], op["val"]))
+    if kind == "set_data_attr" and nesting_ok(v._data, tuple(v._shape)):
+        for path in np.ndindex(*v._shape):
+            try:
+                given = cell_at(info["arg"], path)
+            except Exception:  # noqa: the argument has another nesting than the shape
+                given = None
+            got = cell_at(v._data, path)
+            same = (got is given) if isinstance(given, np.ndarray) else (
+                isinstance(given, list) and isinstance(got, np.ndarray) and got.ndim == 2 and
+                got.tolist() == np.array(given).tolist())
+            if not same:
+                return ("data-setter-wrong-cells", "v.data = ... was accepted but cell %s does not hold the array given "
+                        "at that address" % (path,))
+    return None
 
 
 def oracle_effect(impl, op, info, pre_vecs, pre_leaves):
@@ -544,7 +704,8 @@ def oracle_effect(impl, op, info, pre_vecs, pre_leaves):
                 kind, "belongs to the vector but must not change" if mine else "is not reachable from the addressed vector"))
     if not ok or v is None:
         return None
-    if kind in ("field_op", "set_flattened", "flatten", "field_flatten", "get_data", "getitem"):
+    if kind in ("field_op", "set_flattened", "flatten", "field_flatten", "get_data", "getitem", "set_fields", "set_units",
+                "set_shape", "set_name", "meta_put", "field_get", "reload"):
         now = leaves_of(v._data)
         if len(now) != len(tgt) or any(a is not b for a, (b, _) in zip(now, tgt)):
             return ("cells-rebound", "%s replaced cell objects of the vector (must work in place / only read)" % kind)
@@ -569,13 +730,14 @@ def oracle_effect(impl, op, info, pre_vecs, pre_leaves):
                 if not same_arr(a, want):
                     return ("%s-cells" % kind.replace("_", "-"),
                             "%s(%s): a cell does not hold the expected columns" % (kind, names))
-    if kind == "copy":
+    if kind in ("copy", "reload"):
         w = impl.vecs[-1]
         now = leaves_of(w._data)
         if tuple(w._shape) != tuple(v._shape) or list(w._fields) != list(v._fields) or list(w._units) != list(v._units) \
                 or len(now) != len(tgt) or any(((a is None) != (b is None)) or (b is not None and not same_arr(a, cp))
                                                for a, (b, cp) in zip(now, tgt)):
-            return ("copy-not-equal", "copy() does not hold the same shape / fields / units / cell contents")
+            return ("%s-not-equal" % kind, "%s does not hold the same shape / fields / units / cell contents" % (
+                "copy()" if kind == "copy" else "the vector loaded from a saved one"))
     return None
 
 
@@ -736,6 +898,8 @@ class Gen:
             y = r.random()
             return d if y < 0.9 else (d - 1 if y < 0.95 and d > 1 else d + 1)
 
+        if r.random() < 0.15:      # attribute setters, field-view indexing, surplus indices, save + load
+            return self.extended_op(vi, v, shape, nf, fields, some_field)
         if x < 0.17:      # single-cell assignment
             idx = [{"i": (r.randrange(n) if r.random() < 0.85 else r.choice([-1, -n, n, -n - 1]))} for n in shape]
             if r.random() < 0.06:
@@ -792,7 +956,7 @@ class Gen:
                 c = r.choice([0, 1, 2, 2, 3])
             return {"op": "field_op", "vi": vi, "name": some_field(), "a": [a, c]}
         if x < 0.70:
-            return {"op": "field_flatten", "vi": vi, "name": some_field()}
+            return {"op": "field_flatten", "vi": vi, "name": some_field(), "via": r.choice(["method", "method", "asarray"])}
         if x < 0.78:
             total = sum(lf.shape[0] for lf in leaves_of(v._data) if isinstance(lf, np.ndarray) and lf.ndim == 2)
             y = r.random()
@@ -818,6 +982,115 @@ class Gen:
             names = [r.choice(fields) if (fields and r.random() < 0.85) else -98 for _ in range(k)]
             return {"op": "remove_fields", "vi": vi, "names": names, "asstr": r.random() < 0.3}
         return {"op": "copy", "vi": vi}
+
+
+    # ---- operations added by the coverage extension
+    def names_arg(self, n, pool, fresh):
+        """argument of a names setter for a vector with n fields: mostly n names, sometimes another count,
+        duplicates, None or a non-sequence"""
+        r = self.r
+        y = r.random()
+        if y < 0.06:
+            return {"k": "none"}
+        if y < 0.11:
+            return {"k": "bad", "py": r.choice([5, "ab"])}
+        k = n if y < 0.72 else max(0, n + r.choice([-1, 1, 1, 2]))
+        l = fresh(k) if r.random() < 0.7 else [r.choice(pool) for _ in range(k)]
+        if y > 0.95 and k > 1:
+            l[0] = l[1]
+        return {"k": "list", "l": l, "tuple": r.random() < 0.3}
+
+    def data_arg(self, shape, nf):
+        """(skeleton, items) for `v.data = ...`"""
+        r = self.r
+        items = []
+
+        def leaf(plain=False):
+            a = self.cell(nf, fresh_only=plain)
+            if plain:
+                a["aslist"] = False
+            items.append(a)
+            return len(items) - 1
+
+        def build(sh, plain):
+            if not sh:
+                return leaf(plain)
+            return [build(sh[1:], plain) for _ in range(sh[0])]
+
+        y = r.random()
+        total = 1
+        for n in shape:
+            total *= n
+        if y < 0.55:
+            return build(shape, False), items
+        if y < 0.70:                                     # flat list of all the cells
+            return [leaf(True) for _ in range(total)], items
+        skel = build(shape, True)
+        path = [r.randrange(n) for n in shape]
+        depth = r.randrange(len(shape))                  # the list at this depth along `path` is altered
+        ref = skel
+        for i in path[:depth]:
+            ref = ref[i]
+        if y < 0.80:                                     # wrong length at some level
+            if r.random() < 0.5 and len(ref) > 0:
+                ref.pop()
+            else:
+                ref.append(build(shape[depth + 1:], True))
+        elif y < 0.88:                                   # one level too deep: a list of arrays where an array belongs
+            ref2 = ref
+            for i in path[depth:-1]:
+                ref2 = ref2[i]
+            ref2[path[-1]] = [leaf(True) for _ in range(r.choice([0, 1, 2]))]
+        elif y < 0.94:                                   # an array / None where a list belongs, or None as a cell
+            ref[path[depth]] = None if r.random() < 0.4 else leaf(True)
+        else:                                            # not a list at all
+            return (None if r.random() < 0.5 else leaf(True)), items
+        return skel, items
+
+    def extended_op(self, vi, v, shape, nf, fields, some_field):
+        r = self.r
+        d = len(shape)
+        y = r.random()
+        if y < 0.18:
+            return {"op": "set_fields", "vi": vi, "arg": self.names_arg(nf, fields + [0, 1, -1], self.names)}
+        if y < 0.30:
+            return {"op": "set_units", "vi": vi,
+                    "arg": self.names_arg(nf, [0, 1, 2, 3], lambda k: [r.randint(0, 4) for _ in range(k)])}
+        if y < 0.42:
+            z = r.random()
+            if z < 0.35:
+                sh = list(shape)
+            elif z < 0.6:
+                sh = list(shape)
+                sh[r.randrange(d)] += r.choice([-1, 1, 1])
+            elif z < 0.8:
+                sh = list(shape) + [r.choice([1, 2])] if r.random() < 0.6 or d == 1 else list(shape[:-1])
+            elif z < 0.92:
+                sh = self.shape()
+            else:
+                sh = None
+            return {"op": "set_shape", "vi": vi, "shape": sh}
+        if y < 0.60:
+            skel, items = self.data_arg(shape, nf)
+            return {"op": "set_data_attr", "vi": vi, "skel": skel, "items": items}
+        if y < 0.64:
+            return {"op": "set_name", "vi": vi, "name": "n%d" % r.randint(0, 9)}
+        if y < 0.72:
+            return {"op": "meta_put", "vi": vi, "key": "k%d" % r.randint(0, 3), "val": r.randint(0, 99)}
+        if y < 0.88:
+            ar = d if r.random() < 0.8 else r.randint(1, d)
+            idx = self.index(shape, "any", ar)
+            if r.random() < 0.45:
+                idx = [{"i": (r.randrange(n) if r.random() < 0.9 else r.choice([-1, n, -n - 1]))} for n in shape[:ar]]
+            if r.random() < 0.06:
+                idx = idx + [{"i": r.randint(-1, 1)}]
+            return {"op": "field_get", "vi": vi, "name": some_field(), "idx": idx, "bare": r.random() < 0.5}
+        if y < 0.95:                                     # one index more than there are fixed dimensions
+            idx = self.index(shape, "any", d)
+            if r.random() < 0.55:
+                idx = [{"i": (r.randrange(n) if r.random() < 0.92 else r.choice([-1, n]))} for n in shape]
+            return {"op": "getitem", "vi": vi, "idx": idx + [{"i": r.randint(-3, 3)}], "bare": False}
+        return {"op": "reload", "vi": vi, "store": r.choice(["zip", "dir"])}
 
 
 # ------------------------------------------------------------------------------------------
@@ -906,11 +1179,35 @@ def c_op(op):
         return "(ORemoveFields %d %s)" % (op["vi"], czl(op["names"]))
     if k == "copy":
         return "(OCopy %d)" % op["vi"]
+    if k in ("set_fields", "set_units"):
+        a = op["arg"]
+        arg = {"none": "NNone", "bad": "NBad"}.get(a["k"]) or "(NList %s)" % czl(a["l"])
+        return "(%s %d %s)" % ("OSetFields" if k == "set_fields" else "OSetUnits", op["vi"], arg)
+    if k == "set_shape":
+        return "(OSetShape %d %s)" % (op["vi"], copt(op["shape"], czl))
+    if k == "set_data_attr":
+        return "(OSetDataAttr %d %s [%s])" % (op["vi"], c_skel(op["skel"]), "; ".join(c_aval(a) for a in op["items"]))
+    if k in ("set_name", "meta_put"):
+        return "(OTouch %d)" % op["vi"]
+    if k == "field_get":
+        return "(OFieldGet %d %s %s)" % (op["vi"], cz(op["name"]), c_idx(op["idx"]))
+    if k == "reload":
+        return "(OReload %d)" % op["vi"]
     raise AssertionError(k)
 
 
-def c_history(ops, full=False):
-    return "%s init [%s]" % ("trace" if full else "trace_fp", "; ".join(c_op(o) for o in ops))
+def c_skel(t):
+    if isinstance(t, list):
+        return "(Node [%s])" % "; ".join(c_skel(x) for x in t)
+    return "(Leaf None)" if t is None else "(Leaf (Some %d%%nat))" % t
+
+
+CLEAR_EVERY = 4      # every CLEAR_EVERY-th step of a history is compared in clear (others: 61-bit fingerprint)
+
+
+def c_history(ops, full=False, phase=0):
+    return "%s init [%s]" % ("trace" if full else "trace_smp %d %d 0" % (CLEAR_EVERY, phase % CLEAR_EVERY),
+                             "; ".join(c_op(o) for o in ops))
 
 
 # ------------------------------------------------------------------------------------------
@@ -929,13 +1226,17 @@ def run_history(ops_or_gen, max_steps, use_oracle=True):
         pre_vecs = list(impl.vecs)
         dims.append(len(impl.vecs[op["vi"]]._shape) if "vi" in op else len(op.get("shape") or [0]))
         pre_leaves = snapshot_cells(pre_vecs) if use_oracle else None
+        pre_schema = snapshot_schema(pre_vecs) if use_oracle else None
         res, info = impl.step(op)
         ops.append(op)
         bad = None
         if use_oracle:
             bad = oracle_step(impl, op, res, info, pre_vecs, pre_leaves) or oracle_structure(impl)
+            if bad and op["op"] in SETTER_KEYS and "exc" not in info:
+                bad = (SETTER_KEYS[op["op"]][0], SETTER_KEYS[op["op"]][1] + " -- " + bad[1])
             if bad is None:
-                bad = oracle_effect(impl, op, info, pre_vecs, pre_leaves) or oracle_flatten(impl)
+                bad = oracle_schema(impl, op, info, pre_vecs, pre_schema) or \
+                    oracle_effect(impl, op, info, pre_vecs, pre_leaves) or oracle_flatten(impl)
         if bad and bad[0] == "data-nesting-does-not-match-shape" and op["op"] == "setitem" and \
                 len(op["idx"]) != len(pre_vecs[op["vi"]]._shape):
             bad = ("setitem-index-count-unchecked",
@@ -952,6 +1253,16 @@ def run_history(ops_or_gen, max_steps, use_oracle=True):
             fail = (k, bad[0], bad[1])
             break
     return {"ops": ops, "steps": steps, "obs": obss, "fail": fail, "dims": dims}
+
+
+SETTER_KEYS = {
+    "set_fields": ("fields-setter-length-unchecked",
+                   "`v.fields = names` with another number of names than fields was accepted"),
+    "set_shape": ("shape-setter-desyncs-data",
+                  "`v.shape = shape` was accepted for a shape the nested lists in _data are not laid out for"),
+    "set_data_attr": ("data-setter-nd-nesting",
+                      "`v.data = value` accepted a value whose nesting is not one list level per fixed dimension"),
+}
 
 
 def directed_histories():
@@ -1010,19 +1321,48 @@ def directed_histories():
         {"op": "remove_fields", "vi": 0, "names": [1, -1]},
         {"op": "set_flattened", "vi": 1, "name": 0, "vals": ["5/1", "6/1"], "via": "method"},
         {"op": "flatten", "vi": 0}])
+    # attribute setters: renaming with another count, a shape the data are not laid out for, v.data on 2-D
+    nl = lambda l, **kw: dict({"k": "list", "l": l}, **kw)  # noqa
+    H.append([fs([2]), {"op": "setitem", "vi": 0, "idx": [{"i": 0}], "value": arr(2, [1, 2]), "bare": True},
+              {"op": "set_fields", "vi": 0, "arg": nl([-1, -2])},
+              {"op": "set_fields", "vi": 0, "arg": nl([-1, -2, -3])},
+              {"op": "field_flatten", "vi": 0, "name": -2},
+              {"op": "set_fields", "vi": 0, "arg": nl([-4], tuple=True)},
+              {"op": "set_units", "vi": 0, "arg": nl([1, 2])}, {"op": "set_units", "vi": 0, "arg": nl([1])},
+              {"op": "set_units", "vi": 0, "arg": {"k": "none"}}, {"op": "flatten", "vi": 0}])
+    H.append([fs([2]), {"op": "set_shape", "vi": 0, "shape": [2]}, {"op": "set_shape", "vi": 0, "shape": [3]},
+              {"op": "getitem", "vi": 0, "idx": [{"s": [0, 3, None]}], "bare": True}])
+    H.append([fs([2]), {"op": "set_shape", "vi": 0, "shape": [2, 2]}, {"op": "flatten", "vi": 0}])
+    H.append([fs([2, 2], 1), {"op": "set_data_attr", "vi": 0, "skel": [0, 1], "items": [new(1, [1]), new(1, [2])]},
+              {"op": "getitem", "vi": 0, "idx": [{"i": 1}, {"i": 1}]}])
+    H.append([fs([2, 2], 1), {"op": "set_data_attr", "vi": 0, "skel": [[0, 1], [2, 3]],
+                              "items": [new(1, [1]), new(1, [2], [3]), new(1), new(1, [4])]},
+              {"op": "field_get", "vi": 0, "name": 0, "idx": [{"i": 0}, {"i": 1}]},
+              {"op": "field_get", "vi": 0, "name": 0, "idx": [{"s": [None, None, -1]}, {"l": [1]}]},
+              {"op": "field_flatten", "vi": 1, "name": 0, "via": "asarray"},
+              {"op": "getitem", "vi": 0, "idx": [{"i": 0}, {"i": 1}, {"i": -1}]},
+              {"op": "getitem", "vi": 0, "idx": [{"s": [0, 1, None]}, {"i": 1}, {"i": 7}]},
+              {"op": "meta_put", "vi": 0, "key": "k", "val": 1}, {"op": "set_name", "vi": 1, "name": "n"},
+              {"op": "reload", "vi": 0, "store": "zip"}, {"op": "reload", "vi": 1, "store": "dir"},
+              {"op": "field_op", "vi": 3, "name": 0, "a": ["add", "1/1"]}, {"op": "copy", "vi": 0}])
     return H
 
 
 # ------------------------------------------------------------------------------------------
-def compare(ctx: Ctx, hist, val, tag):
-    """model trace (trace_fp) vs implementation; returns index of first differing step or None"""
+def compare(ctx: Ctx, hist, val, tag, phase=0):
+    """model trace (trace_smp) vs implementation; returns index of first differing step or None.  Per step the
+    result / error class is compared in clear; the state observation in clear at the sampled steps and through
+    its fingerprint at the others"""
     steps_m, fin_m = val
     n = len(hist["steps"])
     for k in range(n):
-        want = [fp(hist["obs"][k])] + hist["steps"][k]
-        got = list(steps_m[k]) if k < len(steps_m) else None
+        clear = k % CLEAR_EVERY == phase % CLEAR_EVERY
+        want = (hist["steps"][k], hist["obs"][k] if clear else [fp(hist["obs"][k])])
+        got = (list(steps_m[k][0]), list(steps_m[k][1])) if k < len(steps_m) else None
         if got != want:
             return k
+        if clear:
+            ctx.cov["states_compared_in_clear"] = ctx.cov.get("states_compared_in_clear", 0) + 1
     if fin_m != (hist["obs"][-1] if n else [0, 0]):
         return n - 1
     return None
@@ -1032,32 +1372,63 @@ def describe(op):
     return json.dumps(op, sort_keys=True)
 
 
+def hash_classes(ctx: Ctx):
+    """drift guard for the attribute setters: a property setter has the name of its getter, so the per-method
+    index of common.ast_hash only sees the getter; hash the whole classes under a key of their own (compared
+    with the baseline only once the baseline holds that key)"""
+    from ..common import SRC, ast_hash, _baseline_hashes
+    rel = "core/datastructures/vector.py"
+    key = rel + "#classes"
+    h = ast_hash(SRC / "quantem" / rel, VECTOR_CLASSES)
+    ctx.cov["source_ast_hashes"][key] = h
+    base = _baseline_hashes().get(ctx.prop, {}).get(key)
+    if base:
+        changed = sorted(k for k in h if k in base and base[k] != h[k])
+        if changed:
+            ctx.escalated = True
+            ctx.cov.setdefault("drift", {})[key] = changed
+            ctx.log("drift guard: %s changed in %s -> quick budget escalated" % (changed, key))
+
+
 def run(ctx: Ctx):
     ctx.hash_sources("core/datastructures/vector.py", VECTOR_METHODS)
     ctx.hash_sources("core/utils/validators.py", VALIDATORS)
+    hash_classes(ctx)
     ctx.cov["rule"] = (
         "a case is one operation history (<= 15 ops quick, <= 40 thorough) on real Vector objects, generated in "
         "lock-step with the implementation from the seeded PRNG: creation (from_shape / from_data, 1-3 fixed dims, "
         "1-4 fields, ragged 0-3 rows, malformed shapes/fields/units/cells), single-cell and slice/list/ndarray "
         "assignment and retrieval through set_data/get_data/__setitem__/__getitem__ (valid, negative, out-of-range, "
         "wrong index count, Vector-valued right-hand sides, cells re-used from other vectors), field arithmetic "
-        "(+ - * / // % **), flatten / set_flattened, add_fields / remove_fields, copy; directed witnesses first. "
+        "(+ - * / // % **), flatten / set_flattened (also through np.asarray(view)), add_fields / remove_fields, copy; "
+        "about 15% of the steps are the attribute setters v.fields / v.units / v.shape / v.data / v.name (right "
+        "and wrong counts, duplicates, None, non-sequences; same / other shapes; correctly nested, flat, too deep, "
+        "too shallow, wrong-length and non-list data), v.metadata[k] = x, _FieldView.__getitem__ (cell, slice, "
+        "list, unset cell, missing field), index tuples with one index more than fixed dimensions, and save + load "
+        "(zip and directory stores); directed witnesses first. "
         "Distinct = distinct op list; non-trivial = at least two live vectors, one populated cell and three "
-        "successful state-changing steps. Every step of every history is compared (result / error class in clear, "
-        "full state observation as a 61-bit fingerprint, final state observation in clear).")
+        "successful state-changing steps. Every step of every history is compared: result / error class in clear, "
+        "the full state observation in clear at every 4th step (phase varies with the history) and at the end, as "
+        "a 61-bit fingerprint at the other steps.")
     ctx.assumptions += [
         "numpy float64 arithmetic is exact on the generated dyadic values (magnitudes are bounded by the generator; "
         "division only by powers of two) so the exact-rational model can be compared with ==",
         "CPython object identity (`is`) of arrays / dicts / lists is what 'shares mutable state' means",
         "copy.deepcopy and numpy hstack / advanced indexing return new arrays (exercised by every run, not proved)",
+        "AutoSerialize save/load (property C01/C14) is used as given: the reloaded Vector is compared with the "
+        "model's `one new array per populated cell, new metadata dict`",
     ]
     ctx.cov["trusted_base"] += [
         "Coq 8.16.1 kernel incl. vm_compute (used to run the model); no native_compute",
         "hand-written model coq/model/C11_Model.v + coq/lib/C11_Heap.v tied to /repo by this correspondence run "
         "(the model describes the code WITH fixes/C11-*.diff applied)",
         "harness/props/C11.py (generator, oracle, canonical observation, Python->Coq printers), harness/common.py",
-        "state observations are compared through a 61-bit polynomial fingerprint per step (collision probability "
-        "< 2^-50 per comparison); the final state of every history and every replay are compared in clear",
+        "three of four state observations are compared through a 61-bit polynomial fingerprint (collision "
+        "probability < 2^-50 per comparison); every 4th step, the final state of every history and every replay "
+        "are compared in clear",
+        "name and metadata CONTENTS are not part of the model state (only the identity of the metadata dict is): "
+        "v.name = x and v.metadata[k] = x are no-ops of the model, their effect and their frame (no other vector's "
+        "name / metadata moves) are judged by the oracle only",
     ]
     ctx.proofs_or_violation()
 
@@ -1080,10 +1451,10 @@ def run(ctx: Ctx):
             ctx.violation(key, "%s  [step %d: %s]" % (msg, k, describe(h["ops"][k])),
                           {"kind": "history", "ops": h["ops"], "failing_step": k, "oracle": msg})
     # ---- model
-    exprs = [c_history(h["ops"]) for _, h in hists]
+    exprs = [c_history(h["ops"], phase=n) for n, (_, h) in enumerate(hists)]
     vals = ctx.coq_eval("hist", PRE, exprs, shard=max(8, len(exprs) // 32 + 1), timeout=900)
     n_dis = 0
-    for (tag, h), val in zip(hists, vals):
+    for hn, ((tag, h), val) in enumerate(zip(hists, vals)):
         ops = h["ops"]
         ctx.cov["traces_validated_against_impl"] += 1
         n_ok_mut = sum(1 for o, s in zip(ops, h["steps"]) if s[:1] in ([0], [3]) and o["op"] not in (
@@ -1095,7 +1466,7 @@ def run(ctx: Ctx):
             ctx.dist("fixed-dims/%d" % dd)
             ctx.dist("result/%s" % ({0: "none", 1: "cell", 2: "cells", 3: "new-vector", 4: "flat", 5: "column"}.get(
                 s[0], "err%s" % (s[1] if len(s) > 1 else "?"))))
-        bad_at = compare(ctx, h, val, tag)
+        bad_at = compare(ctx, h, val, tag, phase=hn)
         if bad_at is not None:
             n_dis += 1
             ctx.cov["disagreements_checked"] += 1
@@ -1133,6 +1504,7 @@ def replay(ctx: Ctx, path):
             print("   impl  observation: %s" % impl_ser)
             print("   model observation: %s" % model_ser)
             print("   MODEL AND IMPLEMENTATION DISAGREE")
+            rc = 1
     if h["fail"]:
         k, key, msg = h["fail"]
         print("oracle: property fails at step %d [%s]: %s" % (k, key, msg))
